@@ -399,11 +399,11 @@ def tie_reshape_pair_pass(ctx, n_cases):
     header = common.CASES_HEADER + "From J2O Require Import Graph Redirect ReshapePairPass.\nClose Scope Z_scope.\n" + NODE_EQB + """
 Definition dims_eqb (a b : option (list dim)) : bool :=
   match a, b with Some x, Some y => list_eqb dim_eqb x y | None, None => true | _, _ => false end.
-Definition chk (c : pgraph * (list node * list nat) * list (nat * list dim)) : bool :=
+Definition chk (c : pgraph * (list node * list nat) * list (nat * option (list dim))) : bool :=
   let '(g, (ns, outs), shp) := c in
   let g' := reshape_pair_pass 40 g in
   list_eqb node_eqb (pg_nodes g') ns && leqb (pg_outputs g') outs
-  && forallb (fun p => dims_eqb (pg_shape g' (fst p)) (Some (snd p))) shp.
+  && forallb (fun p => dims_eqb (pg_shape g' (fst p)) (snd p)) shp.
 """
 
     def render(chunk, off):
@@ -411,7 +411,7 @@ Definition chk (c : pgraph * (list node * list nat) * list (nat * list dim)) : b
         for before, after, shapes, scalars, shapes_after, cranks in chunk:
             pg = (f"(mkPG {coq_nodes(before[0])} {nl(before[1])} {coq_fn(shapes, '(list dim)', lambda v: '(Some ' + dims_lit(v) + ')')} "
                   f"{coq_fn(scalars, 'bool', lambda v: 'true', default='false')} {coq_fn(cranks, 'nat', lambda v: f'(Some {v})')})")
-            sh = "[" + "; ".join(f"({k}, {dims_lit(v)})" for k, v in sorted(shapes_after.items())) + "]"
+            sh = "[" + "; ".join(f"({k}, {'Some ' + dims_lit(shapes_after[k]) if k in shapes_after else 'None'})" for k in sorted(set(shapes_after) | set(shapes))) + "]"
             items.append(f"({pg}, ({coq_nodes(after[0])}, {nl(after[1])}), {sh})")
         return "Definition cs := [\n" + ";\n".join(items) + "].\nEval vm_compute in bad_idx_ chk 0 cs.\n"
     bad, err = collect_bad(*coq_eval_batches(ctx, "c02_reshape_pair", header, rows, render))
